@@ -382,7 +382,16 @@ impl World {
                     }
                 }
                 let mut bogus_ids = vec![];
+                // malformed call results (C01): the bytes are passed to the interpreter verbatim
+                let raw_results: Option<Vec<u8>> = bogus.iter().find(|b| b.0 == "__RAW__").and_then(|b| crate::tamper::unhex(&b.2));
+                if raw_results.is_some() {
+                    bogus_ids.push("__RAW__".to_string());
+                    *self.stats.faults_fired.entry("malformed_call_results".into()).or_default() += 1;
+                }
                 for (k, c, r) in bogus {
+                    if k == "__RAW__" {
+                        continue;
+                    }
                     if !results.contains_key(k) {
                         results.insert(k.clone(), (*c, r.clone()));
                         bogus_ids.push(k.clone());
@@ -409,7 +418,7 @@ impl World {
                     ttl: self.sc.ttl,
                     limits: &lim,
                     results: &results,
-                    raw_results: None,
+                    raw_results: raw_results.as_deref(),
                 });
                 self.stats.runs += 1;
                 if std::env::var("VERIF_TRACE").map(|v| v == "2").unwrap_or(false) {
